@@ -12,6 +12,7 @@ import (
 	"path/filepath"
 	"reflect"
 	"regexp"
+	"strconv"
 	"strings"
 	"sync"
 
@@ -29,13 +30,19 @@ import (
 type Inst struct {
 	Base string // corpus name
 	K    int    // number of query rounds kept
+	Pow  int    // >= 0: proof_of_work_bits of the configuration lowered to this value (both copies)
 	Raw  types.ProofWithPublicInputsRaw
 	VRaw types.VerifierOnlyCircuitDataRaw
 	CD   types.CommonCircuitData
 	Ref  *corp.Ref
 }
 
-func (in *Inst) Name() string { return fmt.Sprintf("%s/k=%d", in.Base, in.K) }
+func (in *Inst) Name() string {
+	if in.Pow >= 0 {
+		return fmt.Sprintf("%s/k=%d/pow_bits=%d", in.Base, in.K, in.Pow)
+	}
+	return fmt.Sprintf("%s/k=%d", in.Base, in.K)
+}
 
 var (
 	mu    sync.Mutex
@@ -59,8 +66,22 @@ func readFile(p string) []byte {
 // Load returns corpus instance base restricted to its first k query rounds (k<=0 or k>=total:
 // the full proof).  The restriction is valid because the query indices are the last draws of the
 // transcript: the first k of them do not depend on how many are drawn.
+// A base name may carry a configuration variant: "A1@pow0" = corpus proof A1 checked against its
+// circuit description with proof_of_work_bits lowered to 0.
 func Load(base string, k int) *Inst {
-	in := &Inst{Base: base}
+	if i := strings.Index(base, "@pow"); i > 0 {
+		pow, err := strconv.Atoi(base[i+4:])
+		must(err)
+		return LoadPow(base[:i], k, pow)
+	}
+	return LoadPow(base, k, -1)
+}
+
+// LoadPow additionally lowers the configured proof-of-work difficulty to pow bits (pow < 0: keep).
+// An honest proof stays an honest proof of the adjusted configuration: the transcript does not
+// contain the difficulty, and a response with >= 16 leading zeros has >= pow of them.
+func LoadPow(base string, k int, pow int) *Inst {
+	in := &Inst{Base: base, Pow: -1}
 	in.Raw = types.ReadProofWithPublicInputsFromRequest(readFile(corp.Path(base, "proof.json")))
 	in.VRaw = types.ReadVerifierOnlyCircuitDataFromRequest(readFile(corp.Path(base, "verifier_data.json")))
 	in.CD = types.ReadCommonCircuitData(corp.Path(base, "common_data.json"))
@@ -80,6 +101,16 @@ func Load(base string, k int) *Inst {
 		in.Ref.P.Proof.OpeningProof.QueryRoundProofs = in.Ref.P.Proof.OpeningProof.QueryRoundProofs[:k]
 		in.Ref.C.Config.FriConfig.NumQueryRounds = uint64(k)
 		in.Ref.C.FriParams.Config.NumQueryRounds = uint64(k)
+	}
+	if pow >= 0 {
+		if uint64(pow) > in.CD.FriParams.Config.ProofOfWorkBits {
+			panic("wv: the proof-of-work difficulty can only be lowered")
+		}
+		in.Pow = pow
+		in.CD.Config.FriConfig.ProofOfWorkBits = uint64(pow)
+		in.CD.FriParams.Config.ProofOfWorkBits = uint64(pow)
+		in.Ref.C.Config.FriConfig.ProofOfWorkBits = uint64(pow)
+		in.Ref.C.FriParams.Config.ProofOfWorkBits = uint64(pow)
 	}
 	return in
 }
@@ -247,6 +278,11 @@ func (in *Inst) writeFiles() string {
 	k := json.Number(fmt.Sprint(in.K))
 	c["config"].(map[string]any)["fri_config"].(map[string]any)["num_query_rounds"] = k
 	c["fri_params"].(map[string]any)["config"].(map[string]any)["num_query_rounds"] = k
+	if in.Pow >= 0 {
+		pw := json.Number(fmt.Sprint(in.Pow))
+		c["config"].(map[string]any)["fri_config"].(map[string]any)["proof_of_work_bits"] = pw
+		c["fri_params"].(map[string]any)["config"].(map[string]any)["proof_of_work_bits"] = pw
+	}
 	write := func(name string, v any) {
 		b, err := json.Marshal(v)
 		must(err)
